@@ -10,6 +10,7 @@ package main
 
 import (
 	"fmt"
+	"math"
 	"math/rand"
 	"strconv"
 	"strings"
@@ -189,7 +190,19 @@ func genUnit(r *rand.Rand, c *hl.Ctx) *unitIn {
 				}
 				c.Count("unit:cell-icon")
 			}
-			switch r.Intn(8) {
+			sw := r.Intn(8)
+			if sw == 0 {
+				ok3d := true
+				for _, a := range attrs {
+					if strings.HasPrefix(a, "shape: ") && a != "shape: rectangle" && a != "shape: square" && a != "shape: hexagon" {
+						ok3d = false
+					}
+				}
+				if !ok3d {
+					sw = 1
+				}
+			}
+			switch sw {
 			case 0:
 				attrs = append(attrs, "style.3d: true")
 				c.Count("unit:cell-3d")
@@ -197,7 +210,7 @@ func genUnit(r *rand.Rand, c *hl.Ctx) *unitIn {
 				attrs = append(attrs, "style.multiple: true")
 				c.Count("unit:cell-multiple")
 			}
-			if r.Intn(5) == 0 {
+			if !isImage && r.Intn(5) == 0 {
 				attrs = append(attrs, "k1; k2")
 				c.Count("unit:cell-container")
 			}
@@ -297,7 +310,7 @@ func runUnit(u *unitIn) map[string]any {
 	for _, o := range cells {
 		obs = append(obs, cellObs(o))
 		for k, ch := range o.ChildrenArray {
-			if ch.TopLeft.X-o.TopLeft.X != float64(3+k*11) || ch.TopLeft.Y-o.TopLeft.Y != float64(4+k*9) {
+			if math.Abs(ch.TopLeft.X-o.TopLeft.X-float64(3+k*11)) > 1e-6 || math.Abs(ch.TopLeft.Y-o.TopLeft.Y-float64(4+k*9)) > 1e-6 {
 				// revert moves the cell together with its descendants, so the offset is kept
 				kidsOK = false
 			}
@@ -351,8 +364,10 @@ func gridAttrs(r *rand.Rand) []string {
 
 func genCell(r *rand.Rand, c *hl.Ctx, id string, depth int) string {
 	var a []string
+	leafOnly := false
 	if r.Intn(3) == 0 {
 		sh := cellShapes[r.Intn(len(cellShapes))]
+		leafOnly = sh == "image" || sh == "text"
 		a = append(a, "shape: "+sh)
 		if sh == "image" || r.Intn(6) == 0 {
 			a = append(a, "icon: https://icons.terrastruct.com/essentials/004-picture.svg")
@@ -374,7 +389,7 @@ func genCell(r *rand.Rand, c *hl.Ctx, id string, depth int) string {
 	if r.Intn(10) == 0 {
 		a = append(a, "style.multiple: true")
 	}
-	if depth < 2 {
+	if depth < 2 && !leafOnly {
 		switch r.Intn(8) {
 		case 0:
 			a = append(a, "p; q; p -> q")
@@ -477,6 +492,8 @@ func runE2E(c *hl.Ctx, text, engine string, fakeSeed int64) {
 		}
 		in["rows"], in["cols"], in["rows_first"] = atoiOr0(gr.GridRows), atoiOr0(gr.GridColumns), rowsFirst
 		in["grid_gap"], in["v_gap"], in["h_gap"] = optAtoi(gr.GridGap), optAtoi(gr.VerticalGap), optAtoi(gr.HorizontalGap)
+		in["explicit_w"], in["explicit_h"] = gr.WidthAttr != nil, gr.HeightAttr != nil
+		in["shape"] = strings.ToLower(gr.Shape.Value)
 		obs := []any{}
 		for _, o := range gr.ChildrenArray {
 			obs = append(obs, cellObs(o))
